@@ -142,6 +142,7 @@ func (g *G) emitCompare(withEqual bool) {
 	g.reg("compare", 2, fmt.Sprintf("return rt.Int(%s.Compare_%d(x, y))", g.qn, i))
 	g.reg("comparec", 2, fmt.Sprintf("return rt.Int(%s.CompareC_%d(x, y))", g.qn, i))
 	g.reg("comparef", 2, fmt.Sprintf("return rt.Int(%s.CompareF_%d(x, y))", g.qn, i))
+	g.reg("cmpcb", 2, fmt.Sprintf("return rt.Bool(%s.CompareC_%d(x, y) == %s.Compare_%d(x, y))", g.qn, i, g.qn, i))
 	if withEqual {
 		g.reg(ceq, 2, fmt.Sprintf("return rt.Bool((%s.Compare_%d(x, y) == 0) == %s.Equal_%d(x, y))", g.qn, i, g.qn, i))
 	}
@@ -155,6 +156,7 @@ func (g *G) emitCompare(withEqual bool) {
 		}
 		if (ai+bi)%4 == 0 {
 			g.ow.op("comparec", g.tn, x.Wire(), y.Wire())
+			g.ow.op("cmpcb", g.tn, x.Wire(), y.Wire())
 		}
 	})
 	for _, a := range g.pool {
@@ -166,6 +168,7 @@ func (g *G) emitCompare(withEqual bool) {
 		g.ow.op("compare", g.tn, mu.Wire(), x.Wire())
 		g.ow.op("comparef", g.tn, mu.Wire(), x.Wire())
 		g.ow.op("comparec", g.tn, x.Wire(), mu.Wire())
+		g.ow.op("cmpcb", g.tn, x.Wire(), mu.Wire())
 		if withEqual {
 			g.ow.op(ceq, g.tn, x.Wire(), mu.Wire())
 		}
